@@ -247,12 +247,12 @@ def _mx(name, *args, **kw):
 
 
 def _c18_cov(rs):
-    scen = sum(r.get("counters", {}).get("evaluations", 0) for r in rs if r.get("space") == "parse") + _sum(rs, "sequences_balanced")
-    return {"states": max(1, scen), "transitions": max(1, _sum(rs, "endings") + _sum(rs, "work_items") + _sum(rs, "terminate_with_custom_manager_checked")),
-            "traces_validated_against_impl": _sum(rs, "endings") + _sum(rs, "sequences_balanced"),
-            "distinct_nontrivial": _sum(rs, "ended_by_handler_exception") + _sum(rs, "ended_by_fatal_error") + _sum(rs, "terminate_with_custom_manager_checked"),
+    scen = sum(r.get("counters", {}).get("evaluations", 0) for r in rs if r.get("space") == "parse") + _sum(rs, "sequences_balanced") + _sum(rs, "pool_histories")
+    return {"states": max(1, scen), "transitions": max(1, _sum(rs, "endings") + _sum(rs, "work_items") + _sum(rs, "terminate_with_custom_manager_checked") + _sum(rs, "pool_histories")),
+            "traces_validated_against_impl": _sum(rs, "endings") + _sum(rs, "sequences_balanced") + _sum(rs, "pool_histories"),
+            "distinct_nontrivial": _sum(rs, "ended_by_handler_exception") + _sum(rs, "ended_by_fatal_error") + _sum(rs, "terminate_with_custom_manager_checked") + _sum(rs, "pool_histories"),
             "nonvacuity": {k: _sum(rs, k) for k in ("ended_normally", "ended_by_fatal_error", "ended_by_handler_exception", "ended_by_library_exception", "allocations_through_ledger",
-                                                     "global_growth_checks", "sequences_balanced", "terminate_with_custom_manager_checked", "work_items")},
+                                                     "global_growth_checks", "sequences_balanced", "terminate_with_custom_manager_checked", "work_items", "pool_histories")},
             "explanation": "states = (document, API, object lifetime) scenarios and balanced Initialize/Terminate sequences; transitions/traces = every way each scenario can end "
                            "(completion, fatal error, exception from the k-th callback for every k, progressive parse abandoned after every parseNext), each executed on the "
                            "real library with ledger MemoryManagers"}
@@ -267,13 +267,17 @@ CHECKS["C18"] = dict(
          "parse can end is enumerated - completion, fatal error, an exception thrown from the k-th handler callback for every k up to the number of callbacks of the "
          "undisturbed run, a progressive parse abandoned after every parseNext. After each: ledger empty, no fault, and a repeat of the scenario does not grow the global "
          "manager. Initialize/Terminate: ALL sequences of length <= d over {Init(default), Init(custom manager), Terminate, parse, regex, transcode/registry} that are "
-         "balanced are executed back to back in one process; after the last Terminate the custom manager's ledger is empty and every work item gives the first-time result.",
+         "balanced are executed back to back in one process; after the last Terminate the custom manager's ledger is empty and every work item gives the first-time result. "
+         "Grammar pool histories: one ledger manager is given to an XMLGrammarPoolImpl and to the parser(s) created on it; EVERY sequence of <= 3 (thorough 4) operations over "
+         "{loadGrammar(DTD | schema A | another schema document of the same namespace | broken schema) with and without caching, parse with useCachedGrammarInParse / "
+         "cacheGrammarFromParse, parse of a malformed document, lockPool, unlockPool, resetCachedGrammarPool, switch to a second parser on the same pool} x {SAX2XMLReader, "
+         "XercesDOMParser} x {IGXMLScanner, DGXMLScanner, SGXMLScanner} is executed, then the parsers and finally the pool are destroyed: ledger empty, no foreign or double release.",
     trusted_base=["clang 14 ASan/UBSan (use-after-free on released blocks)"],
     assumptions=["allocation failure is not injected", "blocks the library takes from operator new directly (not through a MemoryManager) are only covered by ASan, not by the ledger"],
     coverage=_c18_cov,
     runs=dict(
-        quick=[_mx("parse-endings-k1", "--space", "parse", "--k", 1), _mx("init-term-depth5", "--space", "initterm", "--depth", 5)],
-        thorough=[_mx("parse-endings-k2", "--space", "parse", "--k", 2), _mx("init-term-depth7", "--space", "initterm", "--depth", 7)],
+        quick=[_mx("parse-endings-k1", "--space", "parse", "--k", 1), _mx("init-term-depth5", "--space", "initterm", "--depth", 5), _mx("grammar-pool-histories-depth3", "--space", "pool", "--depth", 3)],
+        thorough=[_mx("parse-endings-k2", "--space", "parse", "--k", 2), _mx("init-term-depth7", "--space", "initterm", "--depth", 7), _mx("grammar-pool-histories-depth4", "--space", "pool", "--depth", 4)],
     ),
     manifest=dict(technique="exhaustive enumeration of parse endings (every callback index, every parseNext count) and of balanced Initialize/Terminate sequences on the real library with ledger memory managers",
                   text="Every ending within the stated bounds is executed; the ledger invariant is evaluated after each."),
